@@ -439,7 +439,32 @@ fn validate_inputs(dir: &Path) -> Vec<(&'static str, Option<String>, bool)> {
         ("bad-char", w("val-bad.hex", b"00gg"), false),
         ("non-ascii", w("val-uni.hex", "00é0".as_bytes()), false),
         ("binary", w("val-bin.hex", &[0x00, 0xff, 0xfe, 0x80]), false),
+        // inputs that exist without being regular files: a symbolic link to valid text, a dangling
+        // link, and a named pipe that delivers valid text (created and fed per run, see judge_validate)
+        ("symlink-valid", {
+            let p = dir.join("val-link.hex");
+            let _ = std::fs::remove_file(&p);
+            std::os::unix::fs::symlink(dir.join("val-ok.hex"), &p).unwrap();
+            Some(p.display().to_string())
+        }, true),
+        ("symlink-dangling", {
+            let p = dir.join("val-dangling.hex");
+            let _ = std::fs::remove_file(&p);
+            std::os::unix::fs::symlink(dir.join("val-nowhere.hex"), &p).unwrap();
+            Some(p.display().to_string())
+        }, false),
+        ("fifo-valid", Some(dir.join("val-fifo").display().to_string()), true),
     ]
+}
+
+/// a named pipe at `path` and a child that writes `text` into it once a reader opens it
+fn fifo_with_feeder(path: &str, text: &str) -> Option<std::process::Child> {
+    let _ = std::fs::remove_file(path);
+    let ok = Command::new("mkfifo").arg(path).status().map(|s| s.success()).unwrap_or(false);
+    if !ok {
+        return None;
+    }
+    Command::new("sh").arg("-c").arg(format!("printf '%s' '{text}' > '{path}'")).stdin(Stdio::null()).stdout(Stdio::null()).stderr(Stdio::null()).spawn().ok()
 }
 
 fn judge_validate(dir: &Path, v: &(&str, Option<String>, bool), a: &(&str, Option<String>, bool), mode: usize, k: usize, order: (u64, u64), t: &mut Tally) {
@@ -452,10 +477,30 @@ fn judge_validate(dir: &Path, v: &(&str, Option<String>, bool), a: &(&str, Optio
         args.push("--json".into());
     }
     args.push("validate".into());
-    if let Some(p) = &v.1 {
+    let mut feeders = vec![];
+    let mut fifos = vec![];
+    let mut path_of = |x: &(&str, Option<String>, bool), tag: &str| -> Option<String> {
+        let p = x.1.clone()?;
+        if x.0 == "fifo-valid" {
+            let p = format!("{p}-{tag}{k}");
+            match fifo_with_feeder(&p, "00ff 12ab") {
+                Some(c) => feeders.push(c),
+                None => return None,
+            }
+            fifos.push(p.clone());
+            return Some(p);
+        }
+        Some(p)
+    };
+    let (vp, ap) = (path_of(v, "v"), path_of(a, "a"));
+    if (v.1.is_some() && vp.is_none()) || (a.1.is_some() && ap.is_none()) {
+        t.count("validate_cases_skipped_no_mkfifo", 1);
+        return;
+    }
+    if let Some(p) = &vp {
         args.extend(["--video".to_string(), p.clone()]);
     }
-    if let Some(p) = &a.1 {
+    if let Some(p) = &ap {
         args.extend(["--audio".to_string(), p.clone()]);
     }
     if mode == 1 {
@@ -463,7 +508,15 @@ fn judge_validate(dir: &Path, v: &(&str, Option<String>, bool), a: &(&str, Optio
     }
     t.evaluations += 1;
     let case = || json!({"engine": "E6-validate", "video": v.0, "audio": a.0, "args": args});
-    match spawn(&args, Duration::from_secs(5)) {
+    let spawned = spawn(&args, Duration::from_secs(5));
+    for mut c in feeders {
+        let _ = c.kill();
+        let _ = c.wait();
+    }
+    for f in &fifos {
+        let _ = std::fs::remove_file(f);
+    }
+    match spawned {
         Err(e) => t.violation("C20/machinery/spawn", order, || e.clone(), case),
         Ok(o) => {
             if o.timed_out {
@@ -763,7 +816,7 @@ pub fn check(ctx: &Ctx) -> i32 {
         &tally,
         Meta {
             level: "exploration",
-            rule: format!("the built muxide binary is spawned for: {n_mux} valid mux option combinations ({}) - exit 0, output file (absent, 10 bytes or 70000 bytes of other content beforehand, cycling) byte-equal to an in-process library run with the same settings and the single frame at t=0 (video frames of 9 / 5000 / 70000 bytes, audio frames of 7 / 4500 bytes, cycling; every fifth frame carries its configuration with a non-IDR picture - H.264 non-IDR slice, H.265 BLA, AV1 / VP9 inter frame - and must be treated as the library call write_video(0, data, keyframe) treats it), reported frame counts; ~90 single invalid deviations from a valid command (missing/unknown/out-of-range options, eight kinds of bad input file for video and audio, --fragmented, wrong codec for the data) - exit != 0 and no completion message; validate: 10 x 10 input kinds (absent, missing, empty, whitespace, valid, odd, bad char, non-ASCII, binary) x {{--json, -o file}} - verdict valid iff every given input exists and is non-empty even-length hex; info: {n_info} files of <= {} boxes with size fields over {{0, 1, 7, 8, 9, exact, exact+1, 2^32-1}} x ASCII / non-UTF-8 types, files shorter than 8 bytes (termination within 5 s), every well-formed file produced by the mux runs, and {n_gen} well-formed files by construction (the library's fragmented recordings of 0..5000 fragments, ftyp + 0..65537 empty free boxes + mdat, and files with a 64-bit largesize mdat and a last box of size 0) through both the JSON and the text listing (box list equals the reader's top-level walk). Distinct by output file / verdict.", if ctx.thorough { "full product of 10 codec spellings x 3 dimensions x 3 frame rates x 28 audio options x 5 titles (incl. surrounding whitespace and empty) x 2 languages x 4 output modes" } else { "every (codec spelling, audio option) pair with the other factors cycling, plus the full product of dimensions x fps x title x language x output mode" }, if ctx.thorough { 3 } else { 2 }),
+            rule: format!("the built muxide binary is spawned for: {n_mux} valid mux option combinations ({}) - exit 0, output file (absent, 10 bytes or 70000 bytes of other content beforehand, cycling) byte-equal to an in-process library run with the same settings and the single frame at t=0 (video frames of 9 / 5000 / 70000 bytes, audio frames of 7 / 4500 bytes, cycling; every fifth frame carries its configuration with a non-IDR picture - H.264 non-IDR slice, H.265 BLA, AV1 / VP9 inter frame - and must be treated as the library call write_video(0, data, keyframe) treats it), reported frame counts; ~90 single invalid deviations from a valid command (missing/unknown/out-of-range options, eight kinds of bad input file for video and audio, --fragmented, wrong codec for the data) - exit != 0 and no completion message; validate: 13 x 13 input kinds (absent, missing, empty, whitespace, valid, odd, bad char, non-ASCII, binary, symbolic link to valid text, dangling link, named pipe delivering valid text) x {{--json, -o file}} - verdict valid iff every given input exists and is non-empty even-length hex; info: {n_info} files of <= {} boxes with size fields over {{0, 1, 7, 8, 9, exact, exact+1, 2^32-1}} x ASCII / non-UTF-8 types, files shorter than 8 bytes (termination within 5 s), every well-formed file produced by the mux runs, and {n_gen} well-formed files by construction (the library's fragmented recordings of 0..5000 fragments, ftyp + 0..65537 empty free boxes + mdat, and files with a 64-bit largesize mdat and a last box of size 0) through both the JSON and the text listing (box list equals the reader's top-level walk). Distinct by output file / verdict.", if ctx.thorough { "full product of 10 codec spellings x 3 dimensions x 3 frame rates x 28 audio options x 5 titles (incl. surrounding whitespace and empty) x 2 languages x 4 output modes" } else { "every (codec spelling, audio option) pair with the other factors cycling, plus the full product of dimensions x fps x title x language x output mode" }, if ctx.thorough { 3 } else { 2 }),
             bound: "option domains as listed".into(),
             exhaustive: true,
             assumptions: vec!["validate with no inputs, mux --dry-run and --creation-time (documented as unimplemented) are outside the statement and not judged".into(), "the binary under test is built from /repo's working tree into /verif/target/cli by ./check".into()],
